@@ -50,7 +50,7 @@ var c03Payloads = map[string][][]string{
 	},
 }
 
-var c03Seps = []string{" ", "\t", "\n", "\v", "\f", "\r", "\xa0", "/**/", "/*x*/"}
+var c03Seps = []string{" ", "\t", "\n", "\v", "\f", "\r", "\xa0", "/**/", "/*x*/", "/*" + "xxxxxxxxxxxxxxxxxxxxxxxxxxxxxxxxxxxxxxxx" + "*/", " /*" + "0123456789012345678901234567" + "*/ "}
 var c03Tails = []string{"", "--", "-- ", "-- -", "#", "/*", ";--"}
 
 //go:embed c03_grammar.json
@@ -235,7 +235,7 @@ func init() {
 		ID:        "C03",
 		QuickS:    60,
 		ThoroughS: 600,
-		Rule: "complete product of the calibrated attack grammar: every committed (family, payload, prefix, tail) production x {9 separators uniformly, each separator position varied alone} x {lower, UPPER, alternating} plus every single-letter flip of the payload; " +
+		Rule: "complete product of the calibrated attack grammar: every committed (family, payload, prefix, tail) production x {11 separators (incl. 32- and 44-byte inline comments) uniformly, each separator position varied alone} x {lower, UPPER, alternating} plus every single-letter flip of the payload; " +
 			"every member must be reported by IsSQLi; all members are non-trivial; distinct_outcomes = distinct fingerprints returned",
 		Assumptions: []string{"the production list c03_grammar.json was calibrated once on the repaired pinned tree and is fixed; productions the pinned tree did not detect in every variant were never part of the guarantee"},
 		Setup: func(w *fw.W) error {
